@@ -9,4 +9,4 @@ ids="$@"
 mkdir -p work/runall
 export GOFLAGS=-mod=mod GOWORK=off GOPROXY=off GOSUMDB=off GOTOOLCHAIN=local
 [ -x bin/vcheck ] || go build -o bin/vcheck ./cmd/vcheck || exit 2
-printf '%s\n' $ids | xargs -P $par -I{} sh -c "s=\$(date +%s); bin/vcheck {} --tier $tier --seed $seed > work/runall/{}.$tier.s$seed.log 2>&1; rc=\$?; e=\$(date +%s); echo \"{} rc=\$rc \$((e-s))s \$(grep -c '^VIOLATION' work/runall/{}.$tier.s$seed.log) viol \$(grep -c '^KNOWN-FINDING' work/runall/{}.$tier.s$seed.log) known \$(grep -c '^INCONCLUSIVE' work/runall/{}.$tier.s$seed.log) incon\"; grep -E '^(VIOLATION|ERROR|  signature)' work/runall/{}.$tier.s$seed.log | cut -c1-220 | head -8"
+printf '%s\n' $ids | xargs -P $par -I{} sh -c "s=\$(date +%s); bin/vcheck {} --tier $tier --seed $seed $VERIF_RUNALL_EXTRA > work/runall/{}.$tier.s$seed.log 2>&1; rc=\$?; e=\$(date +%s); echo \"{} rc=\$rc \$((e-s))s \$(grep -c '^VIOLATION' work/runall/{}.$tier.s$seed.log) viol \$(grep -c '^KNOWN-FINDING' work/runall/{}.$tier.s$seed.log) known \$(grep -c '^INCONCLUSIVE' work/runall/{}.$tier.s$seed.log) incon\"; grep -E '^(VIOLATION|ERROR|  signature)' work/runall/{}.$tier.s$seed.log | cut -c1-220 | head -8"
